@@ -10,7 +10,7 @@ func init() {
 	plans["C16"] = Plan{Prop: "C16", Level: "exploration", Exhaustive: true,
 		Rule: "full application (NewDatahubInstance, node security 'local', all middlewares) driven in-process through echo.ServeHTTP. " +
 			"(1) every e.Routes() entry x 8 listed token defects (absent, garbage, expired, wrong key, wrong issuer, wrong audience, HS256-with-public-key, none) + 2 unlisted (no audience, no issuer), plus one variant per signing algorithm the JWT library knows other than RS256 (RS384/512, PS256/384/512 correctly signed with the node's own RSA key, HS256/384/512 keyed with the node's public key PEM, ES256/384/512 and EdDSA with fresh keys, none), all claiming the admin role with right issuer / audience / expiry: must be 401/403 on every non-open route. " +
-			"(2) every ordered ACL list without repetition of size <=2 (quick) / <=3 (thorough) over {/datasets/a, /datasets/a*, /datasets/*, /datasets/a/entities, /jobs*, /*} x {read,write} x {allow,deny}, installed through the admin API for a registered client whose token is obtained by the real assertion exchange, x every route (dataset routes also for the neighbours ab and b): status not in {401,403} => reference decision (written from the statement) grants and does not deny; GET /datasets may list only granted names. " +
+			"(2) every ordered ACL list without repetition of size <=2 (quick) / <=3 (thorough) over {/datasets/a, /datasets/a*, /datasets/*, /datasets/a/entities, /jobs*, /*} x {read,write} x {allow,deny}, installed through the admin API for a registered client whose token is obtained by the real assertion exchange, plus, outside the exhaustive box, the star-shaped resources {/datasets/*/changes, /datasets/a*/entities, /*/clients, /datasets/a*b*, */entities} x {read,write} x {allow,deny}: each alone and paired both ways with two companions (quick) / with the whole lattice and each other (thorough); a '*' that is not the last character is an ordinary character for the reference; x every route (dataset routes also for the neighbours ab and b): status not in {401,403} => reference decision (written from the statement) grants and does not deny; GET /datasets may list only granted names. " +
 			"(3) every sequence of <=3 (quick) / <=4 (thorough) security-admin operations (register, unregister, set ACL incl. for a never-registered client, delete ACL): clients and ACLs identical after re-initialising the security core from disk; plus one re-boot of the whole application per child. " +
 			"(4) OPA branch against a loopback stub. (6) c16reuse: the same token string presented again: short-lived (2 s) correctly signed tokens of every source (node key / external issuer from a loopback well-known key set, admin role / client subject) used on 5-7 routes while valid and again 1.5 s after exp: the second use must be 401; one access token string across ACL narrowed / deny added / ACL deleted / client unregistered: every request judged against the ACL in force. (7) c16storm (GOMAXPROCS 16 and 2, and under -race): 8-16 goroutines x 1500 requests with one client token against 4 allow+deny lists, every answer judged by the reference; an administrator goroutine reads the ACL back and persists the table meanwhile; afterwards API and acls.json must hold the installed entries; race blocks with both sides inside the token / ACL decision are violations. (5) path-spelling dimension, applied to every request of (1), (2) and (4): percent-encoded first / last / all characters of every path parameter (lower- and upper-case hex), of the first and last static segment, encoded slash before / after a parameter and at the end, double slash (leading, before / after a parameter), trailing slash, dot and dot-dot segments (plain and encoded); the real router is asked which route it picks, spellings it does not route (its own 404 / 405) are counted and not judged; the reference decision is taken on the percent-DECODED request path, and a served entities / changes body is attributed to the dataset whose content it holds. One case = one ACL list / token variant / op sequence; non-trivial = some ACL entry's pattern matches a requested path (ACL cases), >=2 kinds of operations (restart cases)",
 		Assumptions: []string{
